@@ -47,8 +47,7 @@ type PoliciesData struct {
 }
 
 type StreamsData struct {
-	stream        *streams.Stream
-	flowValidator *validation.Validator
+	stream *streams.Stream
 }
 
 type HandlingDataManager struct {
@@ -224,8 +223,11 @@ func (rd *HandlingDataManager) initializeOtel() {
 func (rd *HandlingDataManager) initializeStreamsForDryRun() error {
 	log.Info().Msg("Validating flows for Lunar Engine")
 
-	rd.flowValidator = validation.NewValidator()
-	return rd.flowValidator.Validate()
+	// The validator is used for this dry run only. It is kept local: this
+	// function is reachable from /validate_flows and /load_flows, which run
+	// concurrently with each other and with a reload.
+	flowValidator := validation.NewValidator()
+	return flowValidator.Validate()
 }
 
 func (rd *HandlingDataManager) initializeStreams() (err error) {
